@@ -233,6 +233,21 @@ def zero_run_messages():
     return out
 
 
+def round_value_messages():
+    """Message values next to c * 10^e: the running decimal quotient crosses a 9- or 18-digit block
+    boundary with a carry / borrow chain right there (radix 3 reaches ...999999999 + digit)."""
+    out, seen = [], set()
+    for e in (9, 10, 18, 19, 27):
+        for c in (1, 2, 3, 4, 5, 7, 9):
+            for delta in (-1, 0, 1, 2):
+                V = c * 10 ** e + delta
+                for w in (V.bit_length(), V.bit_length() + 1, 64 if V.bit_length() <= 64 else 96):
+                    if (V, w) not in seen and w >= V.bit_length():
+                        seen.add((V, w))
+                        out.append(U.bits_of(V, w))
+    return out
+
+
 def long_messages(Ls):
     out = []
     for L in Ls:
@@ -462,7 +477,7 @@ def long_jobs(which, quick):
         if not O.wellformed_start(G, start):
             continue
         R = O.reach(G, start)
-        for bits in sweep:
+        for bits in sweep + (round_value_messages() if name in ('ternary-2', 'mixed-1234', 'mixed-order1', 'complete-2') else []):
             jobs.append((which, name, k, G, start, False, None, bits))
             if no_deg3(G, R) and len(bits) % 3 == 0:
                 jobs.append((which, name, k, G, start, True, None, bits))
